@@ -1,4 +1,5 @@
 """C07 — SMC-ABC populations: thresholds, prior support, importance weights, n_sim."""
+import logging
 import numpy as np
 import scipy.stats as ss
 from common import *
@@ -95,6 +96,27 @@ def log_components(X, M, cov):
     return -0.5 * quad - np.sum(np.log(sd)) - 0.5 * np.linalg.slogdet(R)[1] - 0.5 * X.shape[1] * np.log(2 * np.pi)
 
 
+class RunAborted(Exception):
+    pass
+
+
+class _ProposalWatch(logging.Handler):
+    """GMDistribution.rvs never gives up; after 100 unsuccessful trials it logs that the user "may wish to kill the
+    process".  The harness is that user.  Also records whether the documented unit-covariance fallback was taken (weighted
+    variance not estimable, e.g. one particle holds all the weight): unit covariance is not scale free, for parameters on
+    scales << 1 essentially no proposal falls into the prior support and the run never ends."""
+    def __init__(self):
+        super().__init__(level=logging.WARNING)
+        self.fallback = False
+
+    def emit(self, record):
+        msg = record.getMessage()
+        if msg.startswith('Could not estimate the sample covariance'):
+            self.fallback = True
+        elif msg.startswith('SMC: It appears to be difficult to find enough valid proposals'):
+            raise RunAborted('fallback_covariance' if self.fallback else 'estimated_covariance')
+
+
 class C07(PropCheck):
     pid = 'C07'
     header = ('From Coq Require Import List ZArith NArith QArith Bool PrimFloat.\n'
@@ -164,12 +186,33 @@ class C07(PropCheck):
         except Exception as e:
             # a run that does not finish is outside the property: a population whose weighted covariance is singular
             # (e.g. two particles, one with weight ~0) makes the mixture density undefined and scipy refuses it
+            if isinstance(e, RunAborted):
+                # the sampler found no valid proposal in 100 trials and told the user to kill it
+                self.bump('run_did_not_finish:no_valid_proposal_in_100_trials:' + str(e))
+                return dict(skipped=True, populations=[], problems=[], weights_vary=False)
             if type(e).__name__ == 'LinAlgError' or 'All sample weights are zero' in str(e):
                 self.bump('run_did_not_finish:' + type(e).__name__)
                 return dict(skipped=True, populations=[], problems=[], weights_vary=False)
             raise
 
     def _run_impl(self, case):
+        watch = _ProposalWatch()
+        loggers = [logging.getLogger('elfi.methods.utils'), logging.getLogger('elfi.methods.inference.samplers')]
+        quiet = logging.NullHandler()
+        prev_disable = logging.root.manager.disable
+        for lg in loggers:
+            lg.addHandler(watch)
+        logging.getLogger('elfi').addHandler(quiet)
+        logging.disable(logging.INFO)              # common.setup_python_env switches all logging off: warnings are needed here
+        try:
+            return self._run_impl_watched(case)
+        finally:
+            logging.disable(prev_disable)
+            logging.getLogger('elfi').removeHandler(quiet)
+            for lg in loggers:
+                lg.removeHandler(watch)
+
+    def _run_impl_watched(self, case):
         import elfi
         import elfi.clients.native as native
         from elfi.store import OutputPool
